@@ -9,7 +9,9 @@ E2 == [x1 |-> IntV(-3), x2 |-> Rat(1, 2), x3 |-> IntV(8), x4 |-> Rat(1, 4), x5 |
 E3 == [x1 |-> Blank, x2 |-> IntV(5), x3 |-> Blank, x4 |-> IntV(2), x5 |-> IntV(3)]
 E4 == [x1 |-> Text(<<"a">>), x2 |-> Text(<<"b">>), x3 |-> Text(<<"a">>), x4 |-> IntV(2), x5 |-> Text(<<"b", "c">>)]
 E5 == [x1 |-> Bool(TRUE), x2 |-> IntV(1), x3 |-> Bool(FALSE), x4 |-> IntV(0), x5 |-> IntV(4)]
-McEnvs == <<E1, E2, E3, E4, E5>>
+\* texts that differ in case only, next to a number and a truth value
+E6 == [x1 |-> Text(<<"a", "B">>), x2 |-> Text(<<"A", "b">>), x3 |-> IntV(1), x4 |-> Bool(TRUE), x5 |-> Text(<<"a">>)]
+McEnvs == <<E1, E2, E3, E4, E5, E6>>
 Dec3 == {"plain", "neg", "pct"}
 Dec1 == {"plain"}
 Dec5 == {"plain", "neg", "pct", "negpct", "pos"}
